@@ -161,15 +161,17 @@ impl Reader {
     /// 2 the same but the 100 arrives in a call of its own; 3 POST with Expect, the 100 was seen while awaiting it;
     /// 4 the head arrives in two pieces (the first piece is re-presented, as nothing of it is consumed).
     /// The caller learns where the head ends only from the reported counts, so they must add up to the bytes before the body.
-    pub fn new_route(api: Api, route: usize, req_v10: bool, head: &[u8]) -> Result<Reader, String> {
-        if api == Api::Call || route == 0 {
+    pub fn new_route(api: Api, route: usize, req_v10: bool, req_close: bool, head: &[u8]) -> Result<Reader, String> {
+        if api == Api::Call || (route == 0 && !req_close) {
             return Reader::new(api, &Method::GET, req_v10, head);
         }
+        let close: &[(&str, &str)] = if req_close { &[("connection", "close")] } else { &[] };
+        let close_expect: &[(&str, &str)] = if req_close { &[("connection", "close"), ("expect", "100-continue")] } else { &[("expect", "100-continue")] };
         const C100: &[u8] = b"HTTP/1.1 100 Continue\r\n\r\n";
         let mut f = match route {
-            1 | 2 => flow_recv(&Method::POST, req_v10, &[("expect", "100-continue")])?,
+            1 | 2 => flow_recv(&Method::POST, req_v10, close_expect)?,
             3 => flow_recv_saw_100(req_v10, C100)?,
-            _ => flow_recv(&Method::GET, req_v10, &[])?,
+            _ => flow_recv(&Method::GET, req_v10, close)?,
         };
         let mut win: Vec<u8> = vec![];
         let pieces: Vec<&[u8]> = match route {
